@@ -1786,6 +1786,11 @@ class SSHConnection(SSHPacketHandler, asyncio.Protocol):
         if self._send_encryption and pkttype > MSG_KEX_LAST:
             self.send_packet(MSG_IGNORE, String(b''))
 
+            if not self._kex_complete:
+                # Sending the ignore packet started a key exchange
+                self._deferred_packets.append((pkttype, args))
+                return
+
         orig_payload = Byte(pkttype) + b''.join(args)
 
         if self._compressor and (self._auth_complete or
